@@ -34,8 +34,8 @@ def g_str(choices):
 
 
 # argument spec: (name, generator, kind) kind: "req" always passed; "opt" may be omitted / NaN-like; nanlike = NAN or None
-def A(name, gen, kind="opt", nanlike=NAN, p_nan=0.35):
-    return dict(name=name, gen=gen, kind=kind, nanlike=nanlike, p_nan=p_nan)
+def A(name, gen, kind="opt", nanlike=NAN, p_nan=0.35, p_omit=0.45):
+    return dict(name=name, gen=gen, kind=kind, nanlike=nanlike, p_nan=p_nan, p_omit=p_omit)
 
 
 LIMS = [A("max_p_mw", g_num), A("min_p_mw", g_num), A("max_q_mvar", g_num), A("min_q_mvar", g_num),
@@ -120,7 +120,10 @@ KINDS = {
                       args=[A("rft_pu", g_num, "req"), A("xft_pu", g_pos, "req"), A("sn_mva", g_pos, "req"),
                             A("rtf_pu", g_num, nanlike=None, p_nan=0.0), A("xtf_pu", g_pos, nanlike=None, p_nan=0.0),
                             A("gf_pu", g_num, p_nan=0.0), A("bf_pu", g_num, p_nan=0.0), A("gt_pu", g_num, nanlike=None, p_nan=0.0),
-                            A("bt_pu", g_num, nanlike=None, p_nan=0.0), A("in_service", g_bool, p_nan=0.0)]),
+                            A("bt_pu", g_num, nanlike=None, p_nan=0.0), A("in_service", g_bool, p_nan=0.0),
+                            A("rft0_pu", g_num, nanlike=None, p_nan=0.0, p_omit=0.85), A("xft0_pu", g_pos, nanlike=None, p_nan=0.0, p_omit=0.5),
+                            A("rtf0_pu", g_num, nanlike=None, p_nan=0.0, p_omit=0.9), A("gf0_pu", g_num, nanlike=None, p_nan=0.0, p_omit=0.9),
+                            A("bf0_pu", g_num, nanlike=None, p_nan=0.0, p_omit=0.7)]),
     "line": dict(table="line", single="create_line", batch="create_lines",
                  nodes=[("from_bus", "from_buses", "bus"), ("to_bus", "to_buses", "bus")], std=("line", LINE_STD, LINE_REQ),
                  args=[A("length_km", g_pos, "req"), A("df", g_pos, p_nan=0.0), A("parallel", g_pint, p_nan=0.0), A("in_service", g_bool, p_nan=0.0),
@@ -145,7 +148,23 @@ KINDS = {
                             A("tap_changer_type", g_str(["Ratio", "Symmetrical", "Ideal"]), nanlike=None),
                             A("in_service", g_bool, p_nan=0.0), A("max_loading_percent", g_pos), A("parallel", g_pint, p_nan=0.0), A("df", g_pos, p_nan=0.0),
                             A("vk0_percent", g_pos), A("vkr0_percent", g_pos), A("mag0_percent", g_pos), A("mag0_rx", g_pos),
-                            A("si0_hv_partial", g_pos), A("pt_percent", g_pos), A("oltc", g_bool, p_nan=0.0), A("xn_ohm", g_pos)]),
+                            A("si0_hv_partial", g_pos), A("pt_percent", g_pos), A("oltc", g_bool, p_nan=0.0), A("xn_ohm", g_pos),
+                            A("vector_group", g_str(["Dyn5", "Dyn5", "YNyn0"]), nanlike=None, p_nan=0.0),
+                            A("tap2_side", g_str(["hv", "hv", "lv"]), nanlike=None, p_nan=0.0), A("tap2_neutral", g_int),
+                            A("tap2_min", g_int), A("tap2_max", g_int), A("tap2_step_percent", g_pos), A("tap2_step_degree", g_pos),
+                            A("tap2_pos", g_int), A("tap2_changer_type", g_str(["Ratio", "Ratio", "Ideal"]), nanlike=None, p_nan=0.0)]),
+    "trafo3w_par": dict(table="trafo3w", single="create_transformer3w_from_parameters", batch="create_transformers3w_from_parameters",
+                        nodes=[("hv_bus", "hv_buses", "bus"), ("mv_bus", "mv_buses", "bus"), ("lv_bus", "lv_buses", "bus")],
+                        args=[A(k, g_pos, "req") for k in T3_REQ] +
+                             [A("shift_mv_degree", g_str([0, 30, 150]), p_nan=0.0), A("shift_lv_degree", g_str([0, 30, 150]), p_nan=0.0),
+                              A("tap_side", g_str(["hv", "mv", "lv"]), nanlike=None), A("tap_step_percent", g_pos), A("tap_step_degree", g_pos),
+                              A("tap_pos", g_int), A("tap_neutral", g_int), A("tap_max", g_int), A("tap_min", g_int),
+                              A("tap_changer_type", g_str(["Ratio", "Ratio", "Ideal"]), nanlike=None, p_nan=0.0),
+                              A("in_service", g_bool, p_nan=0.0), A("max_loading_percent", g_pos), A("tap_at_star_point", g_bool, p_nan=0.0),
+                              A("vk0_hv_percent", g_pos), A("vkr0_mv_percent", g_pos), A("vector_group", g_str(["YN0yn0yn0", "Yyd"]), nanlike=None)]),
+    "bus_dc": dict(table="bus_dc", single="create_bus_dc", batch="create_buses_dc", nodes=[], count_arg="nr_buses_dc",
+                   args=[A("vn_kv", g_pos, "req"), A("type", g_str(["b", "n", "m"]), p_nan=0.0), A("zone", g_str(["z1", "z2"]), nanlike=None),
+                         A("in_service", g_bool, p_nan=0.0), A("max_vm_pu", g_pos), A("min_vm_pu", g_pos)]),
     "trafo3w": dict(table="trafo3w", single="create_transformer3w", batch="create_transformers3w",
                     nodes=[("hv_bus", "hv_buses", "bus"), ("mv_bus", "mv_buses", "bus"), ("lv_bus", "lv_buses", "bus")],
                     std=("trafo3w", T3_STD, T3_REQ),
@@ -206,7 +225,7 @@ def gen_case(rng, kind, n=None):
     # arguments
     args = {}
     for a in K["args"]:
-        if a["kind"] == "opt" and rng.random() < 0.45:
+        if a["kind"] == "opt" and rng.random() < a.get("p_omit", 0.45):
             continue
         mode = rng.random()
         vals = []
